@@ -8,9 +8,7 @@ import (
 	"strings"
 
 	"github.com/ipfs/go-cid"
-	"github.com/ipfs/go-unixfsnode/data/builder"
 	quickbuilder "github.com/ipfs/go-unixfsnode/data/builder/quick"
-	"github.com/ipfs/go-unixfsnode/hamt"
 	"github.com/ipld/go-ipld-prime"
 	cidlink "github.com/ipld/go-ipld-prime/linking/cid"
 
@@ -189,6 +187,10 @@ func c02Case(c dirCase, viol func(sig, detail string), r *core.Run) {
 // hashBitsSweep compares the builder-side and reader-side bit extraction with
 // plain arithmetic for every width and level over a 130-vector basis.
 func hashBitsSweep(r *core.Run) {
+	if !hooksAvailable {
+		r.Cap("the verif-tagged hooks of /repo do not build against this tree: the bit-extraction sweep (private helpers) is skipped")
+		return
+	}
 	var basis [][8]byte
 	add := func(v uint64) {
 		var b [8]byte
@@ -213,7 +215,7 @@ func hashBitsSweep(r *core.Run) {
 			}
 			var got []int
 			var err error
-			if p, pv := core.Guard(func() { got, err = hamt.VerifHashBitsNext(v[:], widths) }); p {
+			if p, pv := core.Guard(func() { got, err = hookHashBitsNext(v[:], widths) }); p {
 				r.Violate(fmt.Sprintf("panic hashbits-next w=%d", w), fmt.Sprintf("hash %016x, %d x %d bits: %v", h, levels+1, w, pv), nil)
 				continue
 			}
@@ -231,7 +233,7 @@ func hashBitsSweep(r *core.Run) {
 					r.Violate(fmt.Sprintf("hashbits-next w=%d level=%d", w, l), fmt.Sprintf("hash %016x: reader %d, arithmetic %d", h, got[l], want), nil)
 				}
 				var bs int
-				if p, pv := core.Guard(func() { bs, err = builder.VerifHashBitsSlice(v[:], l*w, w) }); p {
+				if p, pv := core.Guard(func() { bs, err = hookHashBitsSlice(v[:], l*w, w) }); p {
 					r.Violate(fmt.Sprintf("panic hashbits-slice w=%d level=%d", w, l), fmt.Sprintf("hash %016x: %v", h, pv), nil)
 					continue
 				}
@@ -241,7 +243,7 @@ func hashBitsSweep(r *core.Run) {
 				}
 			}
 			if p, pv := core.Guard(func() {
-				if _, err := builder.VerifHashBitsSlice(v[:], levels*w, w); err == nil && (levels+1)*w > 64 {
+				if _, err := hookHashBitsSlice(v[:], levels*w, w); err == nil && (levels+1)*w > 64 {
 					r.Violate("hashbits-slice-overlong", fmt.Sprintf("builder Slice(%d,%d) accepted", levels*w, w), nil)
 				}
 			}); p {
